@@ -115,11 +115,14 @@ Proof. exact write_frame_other_key. Qed.
 Print Assumptions C18_set_frame_other_key.
 
 (** ** the scalar codec *)
-(** Every scalar of the property's domain (UTF-8 of Unicode scalar values other
-    than noncharacters; with a line break only if there is no CR and the text
-    ends in exactly one LF) is read back from the bytes [EmitScalar] + yaml-cpp
-    write for it, in block context (literal indentation [li], scanner's least
-    indentation [minlit] <= [li]) and in flow context. *)
+(** Every scalar of the property's domain is read back from the bytes
+    [EmitScalar] + yaml-cpp write for it, in block context (literal indentation
+    [li], scanner's least indentation [minlit] <= [li]) and in flow context.
+    Domain [wf_scalar]: UTF-8 of Unicode scalar values other than noncharacters;
+    a text with a line break (LF, CR LF or lone CR) must end in exactly one line
+    break, read as: it ends in LF, optionally preceded by one CR (a final CR LF
+    is ONE break), and what precedes that break does not end in LF or CR.  Texts
+    with CR LF endings, mixed endings and lone CRs inside are therefore in. *)
 Theorem C18_scalar_roundtrip : forall s ctx,
   wf_scalar s -> wf_ctx ctx -> load_scalar ctx (emit_scalar ctx s) = Some (s, []).
 Proof. exact scalar_roundtrip. Qed.
@@ -135,6 +138,26 @@ Theorem C18_scalar_roundtrip_in_context : forall s ctx rest rest',
   load_scalar ctx (emit_scalar ctx s ++ rest) = Some (s, rest').
 Proof. exact scalar_roundtrip_in_context. Qed.
 Print Assumptions C18_scalar_roundtrip_in_context.
+
+(** Companion: the line-break condition is not even needed for the repaired
+    code – every valid text round-trips; and a text with a CR is always written
+    double-quoted, never as a literal block. *)
+Theorem C18_scalar_roundtrip_any_text : forall s ctx,
+  valid_text s -> wf_ctx ctx -> load_scalar ctx (emit_scalar ctx s) = Some (s, []).
+Proof. exact scalar_roundtrip_any_text. Qed.
+Print Assumptions C18_scalar_roundtrip_any_text.
+
+Theorem C18_cr_text_is_double_quoted : forall s ctx,
+  existsb (fun c => N.eqb c 13) s = true -> emit_scalar ctx s = dq_write s.
+Proof. exact cr_text_is_double_quoted. Qed.
+Print Assumptions C18_cr_text_is_double_quoted.
+
+Theorem C18_scalar_domain_cr :
+  wf_scalar [111; 110; 101; 13; 10]%N /\ wf_scalar [97; 13; 10; 98; 13; 10]%N /\ wf_scalar [97; 10; 98; 13; 10]%N /\
+  wf_scalar [97; 13; 98; 10]%N /\ wf_scalar [13; 10]%N /\
+  ~ multi_line_ok [97; 13]%N /\ ~ multi_line_ok [97; 10; 13; 10]%N /\ ~ multi_line_ok [97; 13; 13; 10]%N /\ ~ multi_line_ok [97; 13; 98]%N.
+Proof. exact wf_scalar_cr_examples. Qed.
+Print Assumptions C18_scalar_domain_cr.
 
 Theorem C18_scalar_domain_inhabited :
   wf_scalar [] /\ wf_scalar [32; 97; 10]%N /\ wf_scalar [97; 10; 98; 10]%N /\ wf_scalar [110; 117; 108; 108]%N /\
